@@ -382,3 +382,12 @@ def run(ctx):
         for o in sorted(errflow.origins(F, hv_)):
             ctx.ob(o in ALLOW_, '%s can only fail with the engine-state mismatch error; it can return %s created in %s%s' % (hn_, o[1], short(o[0]), '' if o in ALLOW_ else ' — the client\'s state machine propagates it and the event loop ends'),
                    'lifecycle-errors|%s|%s|%s' % (hn_, short(o[0]), o[1]), loc=hv_.loc(), rule='R-C11-3')
+    # ---- defect 17: what is left of invariant I2 is local to one loop iteration
+    sqa_ = ctx.fn('ProtocolState::service_queue_aux')
+    fwc_ = sqa_.calls('ProtocolState::on_current_operation_fully_written')
+    ctx.ob(len(fwc_) == 1 and guarded_any(sqa_, fwc_[0].bb, [r'^HashMap::get\(self\.operations, Option::unwrap\(self\.current_operation\)\) is Some$', r'^HashMap::get\(self\.operations, self\.current_operation@Some\.0\) is Some$']),
+           'I2: the fully-written hook (which unwraps the current operation) runs only in a loop iteration that has just found the current operation in the table', 'I2|lookup-dominates', loc=sqa_.loc(), rule='R-C11-1')
+    callers_ = F.callers().get(ctx.fn('ProtocolState::on_current_operation_fully_written').key, [])
+    ctx.ob(len(callers_) == 1, 'I2: the fully-written hook has a single caller (the service loop)', 'I2|single-caller', rule='R-C11-1')
+    lost = prims.rets_after(sqa_, [r'^HashMap::get\(self\.operations, Option::unwrap\(self\.current_operation\)\) is None$'])
+    ctx.ob(lost == {'Err'}, 'a current operation that has been completed while partially encoded ends the service call with an error (the torn packet cannot be finished; the engine halts) instead of a panic (%s)' % sorted(lost or ['lookup not found']), 'I2|vanished-current', loc=sqa_.loc(), rule='R-C11-1')
